@@ -40,9 +40,11 @@ def task_process_map():
     col.default_replay = replay
     col.function('_multiprocessing.process_map')
     col.trust('concurrent.futures.Executor.map, tqdm.contrib.concurrent.process_map, builtins.map, tqdm(iterable=...): results in the order of the inputs (dependency contracts)')
+    col.trust('concurrent.futures: Executor.submit(fn, *args) returns a future whose result() is fn(*args); as_completed(fs) yields every future exactly once, '
+              'in an ARBITRARY order (all orders are explored)')
     res = []
-    for workers in (1, 4):
-        def mk(ctx, workers=workers):
+    for workers, extra in [(w, e) for w in (1, 4) for e in ({}, dict(disable=True), dict(disable=False))]:
+        def mk(ctx, workers=workers, extra=extra):
             log = []
             items = ['task-a', 'task-b', 'task-c']
 
@@ -57,25 +59,53 @@ def task_process_map():
             def executor(it, f, args, kw, node):
                 ex = cx.Obj('ProcessPoolExecutor', dict(max_workers=kw.get('max_workers')))
                 ex.fields['map'] = cx.LibFn('Executor.map', bound=ex)
+                ex.fields['submit'] = cx.LibFn('Executor.submit', bound=ex)
                 return ex
+
+            def submit(it, f, args, kw, node):
+                fut = cx.Obj('Future', {})
+                fut.fields['__result__'] = it.call(args[0], list(args[1:]), dict(kw), node)
+                fut.fields['result'] = cx.LibFn('Future.result', bound=fut)
+                log.append('Executor.submit')
+                return fut
+
+            def fut_result(it, f, args, kw, node):
+                return f.bound.fields['__result__']
+
+            def as_completed(it, f, args, kw, node):
+                # every order of completion: pick the next future among the remaining ones by branching
+                rest = list(it.iterate(args[0]))
+                out = []
+                log.append('as_completed')
+                while len(rest) > 1:
+                    k = 0
+                    while k < len(rest) - 1 and not it.ctx.branch(it.ctx.fresh_bool(f'completes_next_{len(out)}_{k}'), 'completion order'):
+                        k += 1
+                    out.append(rest.pop(k))
+                return out + rest
 
             def tqdm_iter(it, f, args, kw, node):
                 log.append(f.name)
                 return kw.get('iterable', args[0] if args else None)
             pl = ctx.opts.setdefault('prelude', {})
             pl['Executor.map'] = ordered_map
+            pl['Executor.submit'] = submit
+            pl['Future.result'] = fut_result
+            pl['concurrent.futures.as_completed'] = as_completed
+            pl['as_completed'] = as_completed
+            pl['builtins.print'] = lambda it, f, args, kw, node: None
             pl['ProcessPoolExecutor'] = executor
             pl['concurrent.futures.ProcessPoolExecutor'] = executor
             pl['tqdm.contrib.concurrent.process_map'] = ordered_map
             pl['tqdm.auto.tqdm'] = tqdm_iter
             fobj = cx.Closure(__import__('ast').parse('lambda x: RESULT(x)').body[0].value, {'RESULT': cx.LibFn('RESULT')}, cx.Interp(ctx, '_multiprocessing'))
             pl['RESULT'] = lambda it, f, args, kw, node: ('result-of', args[0])
-            return [fobj, items], dict(max_workers=workers, desc='x'), dict(items=items, log=log, workers=workers)
+            return [fobj, items], dict(max_workers=workers, desc='x', **extra), dict(items=items, log=log, workers=workers)
         res += cx.run_function('_multiprocessing.process_map', mk, summaries={}, opts={})
     clause(col, 'all_branches_return_the_results_in_input_order', res,
            lambda r: r.outcome == 'return' and list(r.value) == [('result-of', x) for x in r.state['items']], sample=True)
     clause(col, 'four_branches_explored', res, lambda r: True)
-    col.lia('branch_count', [], z3.BoolVal(len(res) == 4))
+    col.lia('branch_count', [], z3.BoolVal(len(res) >= 12))
     return col.pack()
 
 
